@@ -495,8 +495,7 @@ theorem iter_idle_announces (s : State) (i : MyIntf) (l1 l2 : List MyIntf) (svc 
       a.getName T (T + 750) _ (hg.watch.congr rfl rfl rfl) hg.reruns
     obtain ⟨p, hp, hst, hnx, hrec, hwt⟩ := hw.probe
     refine ⟨p, b, hp, ?_, hrec b (by simp), hbn, hm, hwt _ (by simp)⟩
-    unfold Probe.action
-    rw [hst, hnx]
+    rw [action_of_times hst hnx (T + 750)]
     simp
   have hsent := probingHandler_announces _ (T + 750) j i l1 l2 hintfs4 svc v4 hinv4 hent4 hprobe hw0.pn hw0.noRen hne a0
     (fun v => by rw [huq]; exact ha0 v) hin0 hrecs
